@@ -61,8 +61,9 @@ func renderMany(c *run.Ctx, s *kit.Summary, r *kit.Rng) {
 		if err1 != nil || err2 != nil {
 			continue
 		}
-		w1, w2 := wantJSON(h1, c1), wantJSON(h2, c2)
-		if keep != w1 || string(j1) != w1 || string(j2) != w2 {
+		// white space between the members is not the property's business: compare the compact forms
+		w1, w2 := compactJSON(wantJSON(h1, c1)), compactJSON(wantJSON(h2, c2))
+		if compactJSON(keep) != w1 || compactJSON(string(j1)) != w1 || compactJSON(string(j2)) != w2 {
 			s.Violate(kit.Violation{Kind: "hist_json_changes_after_other_rendering", What: "the JSON rendering of a histogram does not (or no longer) show its own counts after another histogram was rendered",
 				Input:    map[string]interface{}{"first": w1, "second": w2},
 				Expected: w1, Observed: fmt.Sprintf("at once: %s | after the second rendering: %s", keep, string(j1))})
